@@ -98,8 +98,9 @@ claim(
 claim(
     "C01",
     "Contracts: DynCtx::match_call_pattern (InAnyOrder arm) returns the LEAST index whose matcher does not reject - Some((i, &patterns[i])) "
-    "on accept, the mapped error on a matcher error, None when all reject - with per-pattern verdicts, every counter value and the "
-    "global ordered index symbolic, and modifies no counter and not the global index [K-bnd in the number of patterns]; since the "
+    "on accept, the mapped error on a matcher error, None when all reject - for pattern lists of every length [V: verbatim scan, std "
+    "iterator contract assumed]; with every counter value and the global ordered index symbolic it modifies no counter and not the "
+    "global index [K-bnd in the number of patterns]; since the "
     "counters are symbolic and absent from the postcondition, 'no matter how often matched before' follows.  eval_dyn bumps exactly the "
     "selected pattern's counter [K-bnd, thorough].  CallCounter::fetch_add returns old, stores old+1 [K-full].  MockAssembler::push "
     "appends in clause order and leaves other methods alone [V, all map states; K-full for the vacant path], finish hands the lists over unchanged [V, K-full], Each::call/deconstruct keep call order [K-bnd].  Lemmas: first_match_is_statement, "
